@@ -82,6 +82,32 @@ fn faults_for(case: &Case, image: &[u8], hlen: usize, chunk: usize, lay: Option<
         v.push(Fault::ChunkDup { i: nch - 1 });
         v.push(Fault::Splice { i: nch - 1, j: nch - 1 });
     }
+    // whole fields blanked (00.. / FF..): every tag of the first and the last chunks, alone and together with an edit of
+    // the payload it protects; the archive nonce and the first key slot of the header
+    let ranges = crate::refmla::chunk_ranges(len - hlen, chunk);
+    let mut picks: Vec<usize> = (0..ranges.len().min(cap)).collect();
+    if ranges.len() > cap {
+        picks.push(ranges.len() - 1);
+    }
+    for i in picks {
+        let r = &ranges[i];
+        let tag_at = hlen + r.start + r.payload;
+        for val in [0u8, 0xFF] {
+            v.push(Fault::Fill { at: tag_at, len: r.tag, val });
+            if r.payload > 0 {
+                for off in [0usize, rng.usize_below(r.payload), r.payload - 1] {
+                    v.push(Fault::Multi { faults: vec![Fault::Fill { at: tag_at, len: r.tag, val }, Fault::Flip { byte: hlen + r.start + off, bit: rng.below(8) as u8 }] });
+                }
+                v.push(Fault::Multi { faults: vec![Fault::Fill { at: tag_at, len: r.tag, val }, Fault::Fill { at: hlen + r.start, len: r.payload, val }] });
+            }
+        }
+    }
+    for (at, n) in [(hlen.saturating_sub(8), 8usize), (17, 32), (17 + 32, 48)] {
+        if at + n <= hlen {
+            v.push(Fault::Fill { at, len: n, val: 0 });
+            v.push(Fault::Fill { at, len: n, val: 0xFF });
+        }
+    }
     for k in [1usize, 15, 16, 17, chunk, chunk + 16] {
         v.push(Fault::DropTail { k });
         v.push(Fault::Garbage { k, seed: rng.u64() });
@@ -101,7 +127,7 @@ impl Prop for C03 {
         "fault_enumeration"
     }
     fn rule(&self) -> String {
-        "run = seeded valid writer history with the encryption layer (E or C+E, 1..4 recipients) written to the simulated sink; stored-byte faults between write and read: EVERY single-bit flip of EVERY byte on images up to 700 bytes (s0, most s1), otherwise every bit of the header, windows around every anchor of the layout map and a seeded sample; all chunk-level edits for the first 8 chunks (swap every pair, move every ordered pair, duplicate, delete, splice chunk j of a second archive built from the same ops with its own fresh key and nonce at every index i), tail drops/garbage of 1,15,16,17,CHUNK,CHUNK+16 bytes, seeded cuts and byte substitutions. Each altered image is opened with the normal reader through the simulated source and a seeded read history is played (list, every file in seeded order with seeded buffer sizes, partial reads, abandon). Oracle: every listed name is an original name; every Ok read returns exactly the original bytes at the cursor; a read that reaches end-of-file with Ok has delivered the whole original file; the unaltered image opens and reads back. Errors are always accepted. evaluations = altered images judged; distinct_nontrivial = distinct (variant, layers, fault kind, region class of the fault, outcome class) signatures.".into()
+        "run = seeded valid writer history with the encryption layer (E or C+E, 1..4 recipients) written to the simulated sink; stored-byte faults between write and read: EVERY single-bit flip of EVERY byte on images up to 700 bytes (s0, most s1), otherwise every bit of the header, windows around every anchor of the layout map and a seeded sample; all chunk-level edits for the first 8 chunks (swap every pair, move every ordered pair, duplicate, delete, splice chunk j of a second archive built from the same ops with its own fresh key and nonce at every index i), whole fields blanked to 00.. or FF.. (each tag of those chunks alone and TOGETHER with a flip in / a blanking of the payload it protects - compound faults -, the archive nonce, the first key slot), tail drops/garbage of 1,15,16,17,CHUNK,CHUNK+16 bytes, seeded cuts and byte substitutions. Each altered image is opened with the normal reader through the simulated source and a seeded read history is played (list, every file in seeded order with seeded buffer sizes, partial reads, abandon). Oracle: every listed name is an original name; every Ok read returns exactly the original bytes at the cursor; a read that reaches end-of-file with Ok has delivered the whole original file; the unaltered image opens and reads back. Errors are always accepted. evaluations = altered images judged; distinct_nontrivial = distinct (variant, layers, fault kind, region class of the fault, outcome class) signatures.".into()
     }
     fn assumptions(&self) -> Vec<String> {
         vec![
@@ -150,7 +176,8 @@ impl Prop for C03 {
             _ if many => 300 * c.chunk + rng.usize_below(100 * c.chunk),
             "s0" => rng.range(20, 260) as usize,
             "s1" => rng.range(60, 900) as usize,
-            _ => 3 * c.chunk + 100,
+            // production constants: half of the archives fit in ONE chunk, the others span a few
+            _ => if rng.chance(1, 2) { rng.range(0, 3000) as usize } else { 3 * c.chunk + 100 },
         };
         let o = GenOpts { max_files: 3, max_ops: 10, max_piece: total, max_total: total, interleave: rng.chance(1, 2), flushes: false, special_names: false, finalize: true, piece_scheds: false };
         let mut ops = gen_ops(&mut rng, &c, &o);
@@ -181,7 +208,7 @@ impl Prop for C03 {
         let sink = SimSink::new(&Sched::Full);
         let w = s.write(&case.cfg, &case.ops, sink.clone());
         if w.panic.is_some() || w.from_config_err.is_some() || w.results.iter().any(Result::is_err) {
-            v.push(Violation::new("workload-write-failed", "write", format!("{:?} {:?}", w.panic, w.results.iter().find(|r| r.is_err()))));
+            v.push(Violation::new("workload-write-failed", "write", format!("writing the workload failed: panic {:?}, from_config {:?}, first failed call {:?}", w.panic, w.from_config_err, w.results.iter().find(|r| r.is_err()))));
             return v;
         }
         let image = sink.data();
